@@ -56,7 +56,8 @@ def bfs(ctx, mod, inits, ops, depth, run_history, diff_continuation=True, max_st
         if len(hist) >= depth:
             continue
         succ = []
-        for op in ops:
+        ops_here = ops(init, hist) if callable(ops) else ops
+        for op in ops_here:
             k2 = run(init, hist + [op])
             succ.append(None if k2 is None else stable_hash(k2))
             if k2 is None:
@@ -76,7 +77,7 @@ def bfs(ctx, mod, inits, ops, depth, run_history, diff_continuation=True, max_st
                 # agree with those seen from the representative history (checked once per state)
                 continued.add(h2)
                 alt = []
-                for op2 in ops:
+                for op2 in (ops(init, hist + [op]) if callable(ops) else ops):
                     k3 = run(init, hist + [op, op2])
                     alt.append(None if k3 is None else stable_hash(k3))
                 ctx.count("merged_states_differentially_continued")
